@@ -903,7 +903,15 @@ impl Machine {
                 let cond = self.eval(c)?.truthy();
                 if cond {
                     let cont = if e.is_some() { Pos::ElseSkip(line) } else { after };
-                    return self.exec_branch(t, cont, line, reply);
+                    let flow = self.exec_branch(t, cont, line, reply)?;
+                    // A THEN statement that completed without transferring control: the IF
+                    // itself skips the ELSE clause and the rest of the line right away. The
+                    // ElseSkip position only survives as a return address (GOSUB frame, FOR
+                    // resume point, pending INPUT).
+                    if matches!(flow, Flow::Normal) && self.pos == Pos::ElseSkip(line) {
+                        self.pos = self.next_line_after(line);
+                    }
+                    return Ok(flow);
                 } else if let Some(e) = e {
                     return self.exec_branch(e, after, line, reply);
                 } else {
